@@ -110,7 +110,8 @@ class Cluster:
             self.events = []
             # Manage each cluster
             for c in self.cl:
-                if not self._clusters[c]['ingest']['status']:
+                if (not self._clusters[c]['ingest']['status']
+                        and not self._clusters[c]['resources']['ingest']):
                     self._clusters[c]['usage_data']['ingest'] = 0
                     self._clusters[c]['ingest']['demand'] = 0
             yield self.env.timeout(TIMESTEP)
